@@ -148,6 +148,10 @@ def _cases(M, E, J, Tk, it):
         # dictionaries / tuples
         ("{'j': e.lead(), 'm': e.met()}.j", J), ("{'j': e.lead(), 'm': e.met()}['m']", float),
         ("{'j': e.lead(), 'm': e.met()}.j.pt()", float),
+        # a key written twice: Python keeps the last value, so its type is the one that follows
+        # (repaired by b1eaa38)
+        ("{'a': e.met(), 'a': e.lead()}.a", J), ("{'a': e.lead(), 'b': 1, 'a': e.n()}.a", int),
+        ("{'a': e.met(), 'a': e.lead()}.a.pt()", float),
         ("(e.lead(), e.n())[0]", J), ("(e.lead(), e.n())[1]", int), ("(e.lead(), e.n())[0].pt()", float),
         ("e.Jets().Select(lambda j: {'t': j.lead(), 'n': j.ntrk()}).Select(lambda d: d.t.charge())", it(int)),
         ("e.Jets().Select(lambda j: {'t': j.lead(), 'n': j.ntrk()}).First().n", int),
